@@ -26,6 +26,9 @@ type funcInfo struct {
 	noBody bool
 	index  map[ssa.Value]int
 	nvals  int
+	// escIndirect: heap-marked Allocs whose address is an argument of a call through a func value loaded from memory:
+	// gc's escape analysis moves such a local to the heap whatever else happens (arguments of unknown callees escape)
+	escIndirect map[*ssa.Alloc]string
 }
 
 func (m *Machine) info(fn *ssa.Function) *funcInfo {
@@ -80,9 +83,73 @@ func (m *Machine) info(fn *ssa.Function) *funcInfo {
 			}
 		}
 		fi.nvals = n
+		fi.escIndirect = escapingViaIndirectCall(fn)
 	}
 	m.finfo[fn] = fi
 	return fi
+}
+
+// escapingViaIndirectCall: see funcInfo.escIndirect. The address may reach the call directly or through conversions
+// (unsafe.Pointer(&v), type changes). Calls whose callee is a function, builtin, closure literal or interface method are
+// not counted (they can be inlined / devirtualised, which may keep the local on the stack).
+func escapingViaIndirectCall(fn *ssa.Function) map[*ssa.Alloc]string {
+	var out map[*ssa.Alloc]string
+	origin := func(v ssa.Value) *ssa.Alloc {
+		for i := 0; i < 8; i++ {
+			switch x := v.(type) {
+			case *ssa.Alloc:
+				if x.Heap {
+					return x
+				}
+				return nil
+			case *ssa.Convert:
+				v = x.X
+			case *ssa.ChangeType:
+				v = x.X
+			default:
+				return nil
+			}
+		}
+		return nil
+	}
+	loaded := func(v ssa.Value) bool {
+		switch x := v.(type) {
+		case *ssa.UnOp:
+			if x.Op != token.MUL {
+				return false
+			}
+			switch x.X.(type) {
+			case *ssa.FieldAddr, *ssa.IndexAddr:
+				return true
+			}
+		}
+		return false
+	}
+	for _, b := range fn.Blocks {
+		for _, ins := range b.Instrs {
+			var cc *ssa.CallCommon
+			switch x := ins.(type) {
+			case *ssa.Call:
+				cc = &x.Call
+			case *ssa.Defer:
+				cc = &x.Call
+			case *ssa.Go:
+				cc = &x.Call
+			}
+			if cc == nil || cc.IsInvoke() || !loaded(cc.Value) {
+				continue
+			}
+			for _, a := range cc.Args {
+				if al := origin(a); al != nil {
+					if out == nil {
+						out = map[*ssa.Alloc]string{}
+					}
+					out[al] = "local " + al.Comment + " in " + fn.Name() + " moved to heap: its address is passed to a call through a func value loaded from memory"
+				}
+			}
+		}
+	}
+	return out
 }
 
 // allocatingCalls: modelled library functions that allocate on the heap on every call (C18 monitor).
@@ -490,6 +557,11 @@ func (m *Machine) exec(fr *Frame, ins ssa.Instruction) {
 	case *ssa.DebugRef:
 	case *ssa.Alloc:
 		et := x.Type().(*types.Pointer).Elem()
+		if m.allocTrack {
+			if why, ok := m.info(fr.fn).escIndirect[x]; ok {
+				m.allocEvent(why)
+			}
+		}
 		b := m.allocObj(et, 1, "alloc "+x.Comment+" in "+fr.fn.Name())
 		fr.env.set(x, m.ptr(b))
 	case *ssa.Store:
